@@ -57,6 +57,18 @@ def main():
     from vlib import core
 
     prop = a.prop.upper()
+    # reach audit (tools/cov_audit.py): VERIF_COV=<dir> records which lines/branches of the tree under test the workload executes
+    cov = None
+    if os.environ.get("VERIF_COV") and (a.shard or a.replay or a.workers == 1):
+        import coverage
+
+        os.makedirs(os.environ["VERIF_COV"], exist_ok=True)
+        cov = coverage.Coverage(data_file=os.path.join(os.environ["VERIF_COV"], ".coverage"), data_suffix=True, branch=True,
+                                include=[os.path.join(repo_path(), "rl4co", "*")])
+        cov.start()
+        import atexit
+
+        atexit.register(lambda: (cov.stop(), cov.save()))
     mod = importlib.import_module(f"checks.{prop.lower()}")
 
     if a.replay:
